@@ -891,6 +891,15 @@ theorem wherePid_unsound_without_caller_order :
     Reg2.whereIsPid s 0 = some 0 ∧ (s.act 0).status = Reg2.stopped := by
   decide
 
+/-- non-vacuity of the pid clauses: an ordered run in which the pid is found while the actor runs, and is gone —
+from `where_is_pid` and from `get_all_pids` — once it is Stopped -/
+example :
+    let pre : List Reg2.Op := [.new 0 none, .regPid 0, .publish 0 2]
+    let ops := pre ++ [.publish 0 5, .bstep 0, .bstep 0, .bstep 0, .bstep 0, .publish 0 5, .publish 0 6]
+    Reg2.Ordered Reg2.init ops = true ∧ Reg2.whereIsPid (Reg2.run Reg2.init pre) 0 = some 0 ∧
+    ((Reg2.run Reg2.init ops).act 0).status = 6 ∧ Reg2.whereIsPid (Reg2.run Reg2.init ops) 0 = none ∧
+    Reg2.allPids (Reg2.run Reg2.init ops) = [] := by decide
+
 /-! ### (1) several `set_status` callers per cell, model `Reg3` -/
 
 /-- the invariant of the threaded model, for every interleaving and whatever the callers do -/
